@@ -80,7 +80,7 @@ def nested_doc(rnd):
     """double-encoded payloads: string values that are themselves JSON text (as produced by json.dumps upstream)"""
     inner = {"k": rnd.choice(["x", ' q"u ', "Zed", "12", "it's"]), "n": rnd.choice([0, 5, -3, 12]), "b": rnd.choice([True, False]),
              "in": {"k": rnd.choice(["y", "a\\b"])}, "l": rnd.choice([[], [1, "x"]])}
-    payload = rnd.choice([dumps(inner), dumps(inner), dumps(inner), json.dumps(inner), "not json", "{bad", dumps([1, 2]), dumps("str"), "12"])
+    payload = rnd.choice([dumps(inner)] * 8 + [json.dumps(inner)] * 3 + ["not json", "{bad", dumps([1, 2]), dumps("str"), "12"])
     d = {"payload": payload, "p2": dumps({"payload": dumps(inner), "k": "outer"}), "k": "top", "num": rnd.choice([12, None])}
     if rnd.random() < 0.15:
         del d["payload"]
@@ -590,15 +590,18 @@ def verdict(chk, reply, real, case, what, broken):
 def build(chk):
     rnd = random.Random(chk.seed)
     quick = chk.tier == "quick"
-    gdocs = exhaustive_docs() + [rand_doc(rnd) for _ in range(24 if quick else 120)]
+    gdocs = exhaustive_docs() + [rand_doc(rnd) for _ in range(16 if quick else 120)]
     tdocs = [typed_doc(rnd) for _ in range(30 if quick else 100)]
+    # objects whose keys are made only of digits, next to arrays: a QUOTED subscript navigates by key, an integer one by position
+    gdocs += [{"2024": 1, "0": "z", "7": [1, {"0": "q"}], "00": 5, "a": {"0": "in", "1": [7]}}, [10, 20, {"0": "k"}], {"0": [1, 2]}, {"a": ["p", "q"]}, ["s0", "s1"]]
     ndocs = [nested_doc(rnd) for _ in range(24 if quick else 80)]
     tables = {"tg": gdocs, "tc": gdocs[::3], "tt": tdocs, "tn": ndocs}
 
     exprs = []  # (table, sql_expr, tag)
-    paths = [[s] for s in SEGS] + [[a, b] for a in SEGS for b in SEGS]
+    p2 = [[a, b] for a in SEGS for b in SEGS]
+    paths = [[s] for s in SEGS] + (rnd.sample(p2, 30) if quick else p2)
     p3 = [[a, b, c] for a in SEGS for b in SEGS for c in SEGS]
-    paths += rnd.sample(p3, 16 if quick else 120)
+    paths += rnd.sample(p3, 8 if quick else 120)
     for segs in paths:
         for use in USES:
             styles = ["colon", "getpath", "nested", "brk"]
@@ -618,6 +621,11 @@ def build(chk):
     for segs in [["a", "b"], ["a", 0], [0, 1], [0, "a"], ["a", "b", 0], [1, 0]]:
         exprs.append(("tg", render_access(rnd, segs, "chain"), "adv:chained-subscripts"))
         exprs.append(("tg", render_access(rnd, segs, "chain") + "::varchar", "adv:chained-subscripts"))
+    for acc in ["{v}['2024']", "{v}['0']", "{v}['7']", "{v}['00']", "{v}['1']", "{v}[0]", "{v}[1]", '{v}:"2024"', '{v}:"0"', '{v}:a."0"', "{v}:a['0']", "{v}:a['1']", "{v}:a[1]",
+                "get_path({v}, 'a')['0']", "get_path({v}, 'a')[0]", "get_path({v}, '\"7\"')['1']", "get_path({v}, '\"7\"')[1]", "{v}['7'][0]", "{v}['0'][1]",
+                "get_path({v}, '\"0\"')", "get_path({v}, '[0]')"]:
+        for use in ("bare", "text", "upper", "isnull", "size"):
+            exprs.append(("tg", render_use(rnd, acc, use), "adv:digit-keys"))
     for e in ["trim(upper({v}:a))", "upper(trim({v}:a))", "{v}:a::varchar::varchar", "upper({v}:a::varchar)",
               "trim({v}:a::varchar)", "lower(upper({v}:a[0]))", "({v}:a)::varchar", "({v}:a[1])", "array_size(({v}:a))"]:
         exprs.append(("tg", e, "adv:nested-functions"))
@@ -629,15 +637,15 @@ def build(chk):
     nuses = ["{x}", "{x}::varchar", "{x}::string", "{x}::int", "{x}::boolean", "upper({x})", "lower({x})", "trim({x})", "{x} is null", "array_size({x})",
              "get_path({i}, '{p}')::varchar", "{x}::varchar = 'x'", "{x}::int + 1", "not {x}::boolean"]
     for inner in inners:
-        for o in outers:
-            for u in (nuses if not quick else rnd.sample(nuses, 6) + ["{x}::varchar", "{x}"]):
+        for o in (outers if not quick else outers[:3] + rnd.sample(outers[3:], 2)):
+            for u in (nuses if not quick else rnd.sample(nuses, 4) + ["{x}::varchar", "{x}"]):
                 x = inner + o
                 e = u.replace("{x}", x).replace("{i}", inner).replace("{p}", o[1:])
                 if "get_path(" in u and "[" in o:
                     continue
                 exprs.append(("tn", e, "nested:" + ("two-level" if inner.count("parse_json") > 1 else "one-level")))
     # operator contexts over the typed documents
-    for _ in range(350 if quick else 3000):
+    for _ in range(260 if quick else 3000):
         ty = rnd.choice(["bool", "bool", "bool", "int", "text"])
         sql, _ = gen_ctx(rnd, ty, rnd.randint(1, 3))
         exprs.append(("tt", sql, f"ctx:{ty}"))
@@ -667,7 +675,7 @@ def build(chk):
         meta.append({"kind": "tbl", "table": table, "sql": sql, "tag": tag, "E": enc_list(toks)})
 
     # the same expressions over a PARSE_JSON literal instead of a column (a sample)
-    lit_pick = rnd.sample(range(len(meta)), min(len(meta), 200 if quick else 3000))
+    lit_pick = rnd.sample(range(len(meta)), min(len(meta), 140 if quick else 3000))
     for i in lit_pick:
         m = meta[i]
         docs = tables[m["table"]]
@@ -719,9 +727,9 @@ def build_small(chk, rnd, tasks, meta):
             meta.append({"kind": "arr", "sql": sql, "line": "json\tarr\t" + enc_json(items), "tag": "arr"})
     # SPLIT
     strs = ["a,b,c", "", ",", "a,,b", ",a,", "abc", "a b,c d", "q\"u,x", "it's,ok", "a\\b,c"]
-    strs += ["".join(rnd.choice("ab,; ") for _ in range(rnd.randint(0, 8))) for _ in range(12 if quick else 300)]
+    strs += ["".join(rnd.choice("ab,; ") for _ in range(rnd.randint(0, 8))) for _ in range(6 if quick else 300)]
     for s in strs:
-        for sep in (",", ";", " "):
+        for sep in ((",", ";") if quick else (",", ";", " ")):
             pieces = s.split(sep)
             sql = f"select split({sql_str(s)}, {sql_str(sep)})"
             tasks.append(("one", sql))
@@ -766,7 +774,7 @@ def build_small(chk, rnd, tasks, meta):
                 tasks.append(("rows", sql))
                 meta.append({"kind": "flatten", "sql": sql, "line": f"json\tflatten\t{enc_json(pieces)}\t{mode}", "tag": "flatten:computed:" + mode})
     # PARSE_JSON / TRY_PARSE_JSON round trip (oracle: the document itself)
-    pj = exhaustive_docs()[:: (4 if quick else 1)] + [rand_doc(rnd) for _ in range(20 if quick else 200)] + [x for x in LEAVES if x is not None]
+    pj = exhaustive_docs()[:: (6 if quick else 1)] + [rand_doc(rnd) for _ in range(10 if quick else 200)] + [x for x in LEAVES if x is not None]
     for d in pj:
         for fn in ("parse_json", "try_parse_json"):
             sql = f"select {fn}({sql_str(dumps(d))})"
@@ -909,7 +917,7 @@ def run(chk) -> None:
         chk.count("corpus")
     tables, tasks, meta, _ = build(chk)
     chk.rule = ("documents: all one-key objects/arrays of depth ≤ 2, width ≤ 2 over 7 leaves (exhaustive) + random documents of depth ≤ 3; "
-                "paths: all of length ≤ 2 over {a,b,s,'a b',0,1,2} + sampled length 3; 9 uses × 4 spellings (colon, GET_PATH, nested, subscript); "
+                "paths over {a,b,S,'a b',0,1,2}: all of length 1, 30 of the 49 of length 2 (quick; all in thorough) + sampled length 3; 9 uses × 4 spellings (colon, GET_PATH, nested, subscript); "
                 "typed random operator contexts of depth ≤ 3 with bare and cast extracts; column and PARSE_JSON-literal operands; OBJECT_CONSTRUCT "
                 "argument lists, array literals, SPLIT, FLATTEN, PARSE_JSON.  non-trivial = distinct (expression, document) whose required value is not NULL")
     nshards = 16
